@@ -34,7 +34,7 @@ def main():
             R = explore.Rec()
             R.space, R.block, R.case = sp.name, replay.get("block"), case
             sg = sp.one(case, R)
-            obs.append((repr(sg), [(f["kind"], f["msg"]) for f in R.fails]))
+            obs.append((explore.crepr(sg), [(f["kind"], f["msg"]) for f in R.fails]))
         res = {"replay": True, "deterministic": obs[0] == obs[1], "violated": bool(obs[0][1]), "observations": obs}
         json.dump(res, open(out, "w"), indent=1)
         return
@@ -53,7 +53,7 @@ def main():
             explore.NWORK = save
         if r2["crashes"]:
             c2 = r2["crashes"][0]
-            confirmed.append({"space": sp.name, "block": repr(blk), "case": c2["case"], "kind": "crash",
+            confirmed.append({"space": sp.name, "block": explore.crepr(blk), "case": c2["case"], "kind": "crash",
                               "msg": "worker died (%s) while executing this case; reproduced in isolation" % (c2["exit"],)})
         else:
             res["errors"].append("worker crash in space %s block %r not reproduced in isolation (exit %r)" % (sp.name, blk, c["exit"]))
@@ -68,7 +68,7 @@ def main():
         "exhaustive": res["blocks"] == res["total_blocks"] and not res["errors"],
         "wall_s": round(time.time() - t0, 2),
         "spaces": [{"name": s.name, "blocks": len(s.blocks), "doc": s.doc} for s in spaces],
-        "sig_sample": [repr(x) for x in list(res["sigs"])[:5]],
+        "sig_sample": [explore.crepr(x) for x in list(res["sigs"])[:5]],
     }
     if hasattr(mod, "post"):
         outd["post"] = mod.post(tier, variant)
